@@ -48,9 +48,11 @@ func (server *GripServer) Traversal(query *gripql.GraphQuery, queryServer gripql
 func (server *GripServer) ListGraphs(ctx context.Context, empty *gripql.Empty) (*gripql.ListGraphsResponse, error) {
 	//server.updateGraphMap()
 	graphs := []string{}
+	server.lock.RLock()
 	for g := range server.graphMap {
 		graphs = append(graphs, g)
 	}
+	server.lock.RUnlock()
 	return &gripql.ListGraphsResponse{Graphs: graphs}, nil
 }
 
@@ -441,7 +443,9 @@ func (server *GripServer) GetSchema(ctx context.Context, elem *gripql.GraphID) (
 	if !server.graphExists(elem.Graph) {
 		return nil, status.Errorf(codes.NotFound, fmt.Sprintf("graph %s: not found", elem.Graph))
 	}
+	server.lock.RLock()
 	schema, ok := server.schemas[elem.Graph]
+	server.lock.RUnlock()
 	if !ok {
 		if server.conf.Server.AutoBuildSchemas {
 			return nil, status.Errorf(codes.Unavailable, fmt.Sprintf("graph %s: schema not available; try again later", elem.Graph))
@@ -479,7 +483,9 @@ func (server *GripServer) AddSchema(ctx context.Context, req *gripql.Graph) (*gr
 	if err != nil {
 		return nil, fmt.Errorf("failed to store new schema: %v", err)
 	}
+	server.lock.Lock()
 	server.schemas[req.Graph] = req
+	server.lock.Unlock()
 	return &gripql.EditResult{Id: req.Graph}, nil
 }
 
